@@ -45,7 +45,7 @@ type fnInfo struct {
 var globalNames = []string{"g1", "g2", "x", "y", "a", "acc"}
 var paramNames = []string{"a", "b", "x", "n"}
 var loopVarNames = []string{"e", "x", "a", "el"}
-var idxNames = []string{"i", "k"}
+var idxNames = []string{"i", "k", "a", "x", "b"}
 
 func (g *ProgGen) nextT() gast.Expr {
 	g.tid++
@@ -347,6 +347,9 @@ func (g *ProgGen) stmt(depth int) []gast.Stmt {
 		fe := gast.Foreach{Var: loopVarNames[r.Intn(len(loopVarNames))], It: g.iterable()}
 		if r.Intn(2) == 0 {
 			fe.Idx = idxNames[r.Intn(len(idxNames))]
+			if fe.Idx == fe.Var {
+				fe.Idx = "i"
+			}
 		}
 		g.loopVars = append(g.loopVars, fe.Var)
 		if fe.Idx != "" {
@@ -357,6 +360,15 @@ func (g *ProgGen) stmt(depth int) []gast.Stmt {
 			body = []gast.Stmt{g.traceStmt(gast.Ident{Name: fe.Idx}, gast.Ident{Name: fe.Var})}
 		}
 		body = append(body, g.block(depth-1, r.Intn(3))...)
+		if r.Intn(2) == 0 {
+			// read the loop variables again after whatever the body did (an inner
+			// loop or a call must not have disturbed them)
+			if fe.Idx != "" {
+				body = append(body, g.traceStmt(gast.Ident{Name: fe.Idx}, gast.Ident{Name: fe.Var}))
+			} else {
+				body = append(body, g.traceStmt(gast.Ident{Name: fe.Var}))
+			}
+		}
 		if r.Intn(4) == 0 {
 			// leave the loop early (from however many loops enclose this one)
 			var ret gast.Stmt = gast.Return{X: g.valueExpr(1)}
